@@ -33,6 +33,9 @@ def container_events(env, rng, thorough):
     def proj(objs, conts):
         return json.dumps([P.value_obj(x) for x in objs] + [P.values(list(c)) for c in conts], sort_keys=True, default=str)
 
+    from barril.units.unit_system_manager import UnitSystemManager
+    usm = UnitSystemManager()
+    usm.AddUnitSystem("verif", "verif", {"length": "cm", "depth": "m", "time": "min", "temperature": "degF", "pressure": "psi"})
     n = 4000 if thorough else 800
     for _ in range(n):
         objs, conts = operands()
@@ -60,6 +63,7 @@ def container_events(env, rng, thorough):
                ("fs.GetValue(u)", lambda: fs1.GetValue(fs2.GetUnit())), ("IsValid", lambda: [x.IsValid() for x in (s1, a1, f1, fs1)]),
                ("repr/str", lambda: [repr(x) + str(x) for x in objs]), ("a.CreateCopy(unit)", lambda: a1.CreateCopy(unit=a2.GetUnit())),
                ("fs.CreateCopy(unit)", lambda: fs1.CreateCopy(unit=fs2.GetUnit())), ("f+f", lambda: f1 + f1), ("f*s", lambda: f1 * a2),
+               ("manager.ConvertScalarToCurrent(s)", lambda: usm.ConvertScalarToCurrent(s1)), ("manager.ConvertToCurrent", lambda: usm.ConvertToCurrent(s1.GetCategory(), s1.GetUnit(), s1.GetValue())),
                ("two+sq", lambda: stwo + Scalar(1.0, "m") * Scalar(3.0, "m")), ("two-sq", lambda: stwo - Scalar(1.0, "m", "length") * Scalar(3.0, "m", "diameter")),
                ("atwo+aq", lambda: atwo + Array([1.0, 1.0], "m") * Array([3.0, 3.0], "m")), ("two*s", lambda: stwo * s1), ("two+two", lambda: stwo + stwo)]
         name, fn = rng.choice(ops) if rng.random() < 0.8 else rng.choice(ops[-5:])
